@@ -114,6 +114,68 @@ Proof.
   apply N.ltb_lt. lia.
 Qed.
 
+(** * Tuning rounds discard the records of the samples they discard *)
+
+Definition alloc_inv (st : nat * list (N * alloc_info)) (kept : list alloc_info) : Prop :=
+  fst st = length kept /\ keys_lt (snd st) (N.of_nat (fst st)) /\
+  forall j, alist_find j (snd st) = gate (nth_error kept (N.to_nat j)).
+
+Lemma alloc_round_inv st kept round :
+  alloc_inv st kept ->
+  alloc_inv (record_alloc_round st round) ((if fst round then [] else kept) ++ snd round).
+Proof.
+  intros Hinv. destruct round as [tune infos]. unfold record_alloc_round. cbn [fst snd].
+  assert (alloc_inv (if tune then (0%nat, []) else st) (if tune then [] else kept)) as H0.
+  { destruct tune; [|exact Hinv]. split; [reflexivity|]. split; [constructor|].
+    intros j. cbn [snd alist_find]. destruct (N.to_nat j); reflexivity. }
+  set (st0 := if tune then (0%nat, []) else st) in *. set (k0 := if tune then [] else kept) in *.
+  destruct H0 as (Hn & Hk & Hf). split; [|split]; cbn [fst snd].
+  - rewrite app_length, Hn. reflexivity.
+  - replace (N.of_nat (fst st0 + length infos)) with (N.of_nat (fst st0) + N.of_nat (length infos)) by lia.
+    apply record_keys_lt. exact Hk.
+  - intros j. rewrite find_record by exact Hk.
+    destruct (j <? N.of_nat (fst st0)) eqn:E; [apply N.ltb_lt in E|apply N.ltb_ge in E].
+    + rewrite Hf. rewrite nth_error_app1 by (rewrite <- Hn; lia). reflexivity.
+    + rewrite nth_error_app2 by (rewrite <- Hn; lia). f_equal. f_equal. rewrite <- Hn. lia.
+Qed.
+
+Lemma alloc_rounds_inv rounds : forall st kept,
+  alloc_inv st kept ->
+  alloc_inv (fold_left record_alloc_round rounds st)
+            (fold_left (fun (kept : list alloc_info) (round : bool * list alloc_info) =>
+                          (if fst round then [] else kept) ++ snd round) rounds kept).
+Proof.
+  induction rounds as [|r rest IH]; intros st kept H; cbn [fold_left]; [exact H|].
+  apply IH. apply alloc_round_inv. exact H.
+Qed.
+
+(** [C05_alloc_gate_rounds]: after any sequence of tuning and collecting
+    rounds, the number of stored samples is that of the kept ones, and stored
+    sample [j] has an allocation record iff *its own* tally is not empty — never
+    the record of a discarded sample with the same index. *)
+Theorem alloc_gate_rounds rounds :
+  fst (record_alloc_rounds rounds) = length (kept_infos rounds) /\
+  forall j, alist_find j (snd (record_alloc_rounds rounds)) =
+            match nth_error (kept_infos rounds) (N.to_nat j) with
+            | Some i => if tallies_is_empty i then None else Some i
+            | None => None
+            end.
+Proof.
+  destruct (alloc_rounds_inv rounds (0%nat, []) []) as (H1 & _ & H3).
+  { split; [reflexivity|]. split; [constructor|]. intros j. cbn. destruct (N.to_nat j); reflexivity. }
+  split; [exact H1|exact H3].
+Qed.
+
+(** Lazy initialisation: the first call allocates in a tuning sample that is
+    discarded; the recorded samples allocate nothing and have no record. *)
+Example lazy_init_leaves_no_record :
+  let a := {| ai_grow := tally_zero; ai_shrink := tally_zero; ai_alloc := {| t_count := 1; t_size := 24 |};
+              ai_dealloc := {| t_count := 1; t_size := 24 |}; ai_max_count := 1; ai_max_size := 24 |} in
+  let z := {| ai_grow := tally_zero; ai_shrink := tally_zero; ai_alloc := tally_zero;
+              ai_dealloc := tally_zero; ai_max_count := 0; ai_max_size := 0 |} in
+  record_alloc_rounds [(true, [a]); (true, [z]); (true, [z]); (false, [z]); (false, [z])] = (3%nat, []).
+Proof. reflexivity. Qed.
+
 (** A sample whose timed section only frees memory does get a record. *)
 Example free_only_sample_is_recorded :
   let i := {| ai_grow := tally_zero; ai_shrink := tally_zero; ai_alloc := tally_zero;
